@@ -5,7 +5,9 @@
 
   `SETVAR(k, v)` evaluates its two arguments (key first), stores `vars[%v of k] = v` and contributes no
   column; `GETVAR(k)` contributes the stored value (NULL when the key was never set) under the item's
-  name; every other item is evaluated by the ordinary evaluator and does not touch the map.
+  name; every other item is evaluated by the ordinary evaluator and does not touch the map.  GETVAR calls nested in
+  the value argument of SETVAR or in another item (`SETVAR('n', GETVAR('n') + 1)`) read the map as it is at that
+  moment: modelled by substituting the stored scalar for the call (`substGet`).
 -/
 import Genql.Model.Eval
 import Genql.Model.Vars
@@ -26,6 +28,58 @@ def classify : SelItem N → Touch N
   | .item (.func .none "getvar" [k]) key _ => .get k key
   | it => .other it
 
+/-- a scalar as a literal expression (composite values have no literal form) -/
+def litOf : Val N → Option (Expr N)
+  | .null => some .null
+  | .bool b => some (.bool b)
+  | .num n => some (.num n)
+  | .str s => some (.str s)
+  | _ => none
+
+/- `GETVAR('k')` calls NESTED inside an expression read the map as it is when the expression is evaluated — a pure
+   read.  They are modelled by substitution: every `GETVAR(<literal key>)` whose stored value is a scalar (or
+   absent: NULL) is replaced by that value as a literal before the ordinary evaluator runs; any other nested use
+   (computed key, composite value, nested SETVAR) is left in place and is out of model for that evaluator. -/
+/-- the key a literal key argument names: its `%v` text -/
+def litKey : Expr N → Option String
+  | .str k => some k
+  | .num n => (fmtR (.num n : Val N)).toOption
+  | .bool b => (fmtR (.bool b : Val N)).toOption
+  | _ => none
+
+mutual
+def substGet (st : Store N) : Expr N → Expr N
+  | .func .none "getvar" [k] =>
+    match litKey k with
+    | some key =>
+      match lookup? key st with
+      | none => .null
+      | some v => (litOf v).getD (.func .none "getvar" [k])
+    | none => .func .none "getvar" [substGet st k]
+  | .and a b => .and (substGet st a) (substGet st b)
+  | .or a b => .or (substGet st a) (substGet st b)
+  | .not a => .not (substGet st a)
+  | .cmp op a b => .cmp op (substGet st a) (substGet st b)
+  | .between isB x lo hi => .between isB (substGet st x) (substGet st lo) (substGet st hi)
+  | .bin op a b => .bin op (substGet st a) (substGet st b)
+  | .un op a => .un op (substGet st a)
+  | .is op a => .is op (substGet st a)
+  | .tuple xs => .tuple (substGetList st xs)
+  | .case whens els => .case (substGetWhens st whens) (substGet st els)
+  | .func q name args => .func q name (substGetList st args)
+  | e => e
+def substGetList (st : Store N) : List (Expr N) → List (Expr N)
+  | [] => []
+  | e :: es => substGet st e :: substGetList st es
+def substGetWhens (st : Store N) : List (When N) → List (When N)
+  | [] => []
+  | .mk c v :: rest => .mk (substGet st c) (substGet st v) :: substGetWhens st rest
+end
+
+def substItem (st : Store N) : SelItem N → SelItem N
+  | .item e key alias => .item (substGet st e) key alias
+  | .star => .star
+
 /-- an argument: evaluated, then `ValueOf` -/
 def argVal (env : Env N) (ctx : Ctx N) (cur : Row N) (e : Expr N) : R (Val N) := do
   let x ← evalExpr env ctx cur e
@@ -44,7 +98,7 @@ def selVars (env : Env N) (ctx : Ctx N) (cur : Row N) :
     match classify it with
     | .set k a => do
       let key ← keyOf env ctx cur k
-      let v ← argVal env ctx cur a
+      let v ← argVal env ctx cur (substGet st a)
       selVars env ctx cur rest (setKey key v st) acc
     | .get k col => do
       let key ← keyOf env ctx cur k
@@ -52,7 +106,7 @@ def selVars (env : Env N) (ctx : Ctx N) (cur : Row N) :
       let (out, st', reads) ← selVars env ctx cur rest st (setKey col (r.getD .null) acc)
       pure (out, st', r :: reads)
     | .other it' => do
-      let acc' ← evalSel env ctx cur [it'] acc
+      let acc' ← evalSel env ctx cur [substItem st it'] acc
       selVars env ctx cur rest st acc'
 
 /-- all rows, in source order -/
@@ -66,32 +120,32 @@ def rowsVars (env : Env N) (ctx : Ctx N) (sel : List (SelItem N)) :
 
 /-! ### the history of calls, on its own -/
 
-/-- the calls one item makes -/
-def itemOps (env : Env N) (ctx : Ctx N) (cur : Row N) (it : SelItem N) : R (List (VOp (Val N))) :=
+/-- the calls one item makes, given the map as it is when the item is reached -/
+def itemOps (env : Env N) (ctx : Ctx N) (cur : Row N) (st : Store N) (it : SelItem N) : R (List (VOp (Val N))) :=
   match classify it with
   | .set k a => do
     let key ← keyOf env ctx cur k
-    let v ← argVal env ctx cur a
+    let v ← argVal env ctx cur (substGet st a)
     pure [.set key v]
   | .get k _ => do
     let key ← keyOf env ctx cur k
     pure [.get key]
   | .other _ => pure []
 
-/-- one row's calls: the items from left to right -/
-def rowOps (env : Env N) (ctx : Ctx N) (cur : Row N) : List (SelItem N) → R (List (VOp (Val N)))
-  | [] => .ok []
-  | it :: rest => do
-    let a ← itemOps env ctx cur it
-    let b ← rowOps env ctx cur rest
+/-- one row's calls: the items from left to right, each seeing the map its predecessors left -/
+def rowOps (env : Env N) (ctx : Ctx N) (cur : Row N) : List (SelItem N) → Store N → R (List (VOp (Val N)))
+  | [], _ => .ok []
+  | it :: rest, st => do
+    let a ← itemOps env ctx cur st it
+    let b ← rowOps env ctx cur rest (run st a).1
     pure (a ++ b)
 
 /-- the whole query's calls: row-major -/
-def historyOf (env : Env N) (ctx : Ctx N) (sel : List (SelItem N)) : List (Row N) → R (List (VOp (Val N)))
-  | [] => .ok []
-  | r :: rs => do
-    let a ← rowOps env ctx r sel
-    let b ← historyOf env ctx sel rs
+def historyOf (env : Env N) (ctx : Ctx N) (sel : List (SelItem N)) : List (Row N) → Store N → R (List (VOp (Val N)))
+  | [], _ => .ok []
+  | r :: rs, st => do
+    let a ← rowOps env ctx r sel st
+    let b ← historyOf env ctx sel rs (run st a).1
     pure (a ++ b)
 
 end Genql.VarsQ
